@@ -234,7 +234,27 @@ def grep_forbidden():
 # running implementation and model on case files
 
 
-def _run_lines(binary, mode, lines, timeout, nproc=None, extra_env=None, stall=None):
+_PREAMBLE = None
+
+
+def lib_preamble():
+    """conversions every library process performs before the cases it is asked about: the property C07 says that what a
+    process converted before cannot matter, so this can only make a difference on a tree with hidden state (memo tables,
+    "last hit" hints, pooled buffers). Label characters whose truncated code point is a blank or a drawing character next
+    to strokes, circle pairs, composed drawings."""
+    global _PREAMBLE
+    if _PREAMBLE is None:
+        import gen
+        r = Rng(12345)
+        texts = [tpl for a in gen.ALIAS for tpl in (a + "|\n |", " " + a + "\n+", "a\n|" + a + "\n|\nb", a + "-" + a,
+                                                    "-" + a + "\n" + a + "+", a + "\n|", "+" + a)]
+        texts += [gen.circle_pair(r) for _ in range(8)] + ["()", "(_)", "*--", "+--+\n|{a}|\n+--+\n# Legend:\na = {fill:red}\n"]
+        texts += [gen.zoo(r) for _ in range(12)]
+        _PREAMBLE = ["pre%d to_svg default %s" % (i, hx(t)) for i, t in enumerate(texts)]
+    return _PREAMBLE
+
+
+def _run_lines(binary, mode, lines, timeout, nproc=None, extra_env=None, stall=None, preamble=None):
     """feeds `lines` (list of str, each starting with a unique id) to `binary mode`, in parallel
     chunks; returns dict id -> rest of the answer line. The binaries answer one line per case, in order, flushed.
     A chunk that stops answering for `stall` seconds (a hang) or whose process dies (an abort) is cut at the first
@@ -257,6 +277,7 @@ def _run_lines(binary, mode, lines, timeout, nproc=None, extra_env=None, stall=N
         todo = list(ch)
         t_end = _time.time() + timeout
         restarts = 0
+        pre = list(preamble or [])
         while todo:
             p = subprocess.Popen([binary, mode], stdin=subprocess.PIPE, stdout=subprocess.PIPE,
                                  stderr=subprocess.DEVNULL, env=e)
@@ -264,7 +285,7 @@ def _run_lines(binary, mode, lines, timeout, nproc=None, extra_env=None, stall=N
 
             def writer():
                 try:
-                    p.stdin.write(("\n".join(todo) + "\n").encode())
+                    p.stdin.write(("\n".join(pre + todo) + "\n").encode())
                     p.stdin.close()
                 except (BrokenPipeError, OSError, ValueError):
                     pass
@@ -316,15 +337,16 @@ def _run_lines(binary, mode, lines, timeout, nproc=None, extra_env=None, stall=N
         t.start()
     for t in ths:
         t.join()
+    out = {}
     for l in lines:
         i = l.split(" ", 1)[0]
-        if i not in res:
-            res[i] = "noanswer"
-    return res
+        out[i] = res.get(i, "noanswer")
+    return out        # (answers to the preamble are not part of the result)
 
 
 def run_impl(mode, lines, timeout=600, nproc=None, stall=None):
-    return _run_lines(HARNESS_BIN, mode, lines, timeout, nproc, stall=stall)
+    return _run_lines(HARNESS_BIN, mode, lines, timeout, nproc, stall=stall,
+                      preamble=lib_preamble() if mode == "lib" else None)
 
 
 def run_model(mode, lines, timeout=600, nproc=None, stall=None):
